@@ -14,8 +14,8 @@ import (
 
 type taintCfg struct {
 	c         *Ctx
-	inScope   func(*ssa.Function) bool            // module functions whose bodies are analysed
-	cleanCall func(name string) bool              // callee whose result is clean whatever its arguments
+	inScope   func(*ssa.Function) bool                    // module functions whose bodies are analysed
+	cleanCall func(name string) bool                      // callee whose result is clean whatever its arguments
 	guarded   func(v ssa.Value, use ssa.Instruction) bool // the use of tainted v at `use` is sanitised
 }
 
